@@ -151,6 +151,20 @@ theorem placement_exists (n : ℕ) (cs : List ℕ) (t : ℕ) (hnd : (cs ++ [t]).
   · simp only [tgtLabel, Function.Embedding.coeFn_mk, f, Fin.val_last]
     simp
 
+/-- a gate embedded on wires that do not include wire `a` does not touch wire `a` -/
+theorem embed_commute_wireZero {n m : ℕ} (iw : Fin m ↪ Fin n) (g : Matrix (Fin m → Bool) (Fin m → Bool) ℂ) (a : ℕ)
+    (ha : ∀ j, (iw j).1 ≠ a) : embed iw g * wireZero n a = wireZero n a * embed iw g := by
+  ext R C
+  rw [wireZero, Matrix.mul_diagonal, Matrix.diagonal_mul]
+  by_cases h : AgreeOff iw R C
+  · have hRC : ext n R a = ext n C a := by
+      by_cases han : a < n
+      · rw [ext_apply_lt R han, ext_apply_lt C han]
+        exact h ⟨a, han⟩ (by rintro ⟨j, hj⟩; exact ha j (congrArg Fin.val hj))
+      · simp [ext, han]
+    rw [hRC]; ring
+  · simp [embed, h]
+
 /-! ### the emitted gates as controlled actions -/
 
 theorem flipBit_eq_update (bits : ℕ → Bool) (t : ℕ) : flipBit bits t = Function.update bits t (!bits t) := by
